@@ -45,8 +45,8 @@ class StmtMixin:
         if m is None:
             raise Unsupported(f"statement {type(s).__name__} at L{s.lineno}")
         fn = p.frame.fn
-        if fn is not None and fn.mod is not None:
-            p.stmts.add((fn.fqn, s.lineno))
+        if fn is not None and (fn.mod is not None or getattr(fn, "cover_fqn", None)):
+            p.stmts.add((fn.fqn if fn.mod is not None else fn.cover_fqn, s.lineno))
         ghost = getattr(fn, "ghost", None) if fn is not None else None
         if not ghost:
             return m(s, p)
